@@ -584,7 +584,7 @@ def to_compartmental_system(names, eqs: Sequence[sympy.Eq]) -> CompartmentalSyst
                             for eq_2 in eqs:
                                 if eq_2.lhs.args[0].name == second_comp.name:  # pyright: ignore
                                     # If this is False, then input to compartment is of second order
-                                    if -term in sympy.Add.make_args(
+                                    if second_comp == comp_func and -term in sympy.Add.make_args(
                                         eq_2.rhs.expand()  # pyright: ignore
                                     ):
                                         from_comp = compartments[names[Expr(second_comp)]]
@@ -594,7 +594,9 @@ def to_compartmental_system(names, eqs: Sequence[sympy.Eq]) -> CompartmentalSyst
                     # compartments or not
                     if _is_positive(term):
                         for eq_2 in eqs:
-                            if -term in sympy.Add.make_args(eq_2.rhs.expand()):  # pyright: ignore
+                            if eq_2.lhs.args[0] == comp_func and -term in sympy.Add.make_args(
+                                eq_2.rhs.expand()  # pyright: ignore
+                            ):
                                 from_comp = compartments[names[Expr(eq_2.lhs.args[0])]]
                                 to_comp = compartments[names[Expr(eq.lhs.args[0])]]
 
